@@ -44,6 +44,43 @@ def fops : WOps Float :=
   { lt := fun a b => decide (a < b), fin := Float.isFinite, round := pyRound6, abs := Float.abs,
     zero := 0.0, one := 1.0, negOne := -1.0, isZero := fun x => x == 0.0 }
 
+def lowerAscii (c : Nat) : Nat := if 65 ≤ c && c ≤ 90 then c + 32 else c
+
+def isDigitC (c : Nat) : Bool := 48 ≤ c && c ≤ 57
+
+/-- unsigned plain decimal `digits[.digits]` / `.digits` / `digits.`, correctly rounded -/
+def parseDec (s : Str) : Option Float :=
+  let ip := s.takeWhile isDigitC
+  let rest := s.dropWhile isDigitC
+  let fp : Option Str := match rest with
+    | [] => some []
+    | 46 :: r => if r.all isDigitC then some r else none
+    | _ => none
+  match fp with
+  | none => none
+  | some f =>
+    if ip.isEmpty && f.isEmpty then none
+    else some (divToFloat (natOfDigits (ip ++ f)) (10 ^ f.length))
+
+/-- `float(s)` for the string shapes the harness generates: optional sign, then a plain decimal or
+`nan` / `inf` / `infinity` (any case).  Exponents, underscores and surrounding blanks are outside
+the generated domain (`none` = ValueError, which is also what every non-numeric string gives). -/
+def pyFloatStr (s : Str) : Option Float :=
+  let neg := match s with
+    | 45 :: _ => true
+    | _ => false
+  let body := match s with
+    | 45 :: r => r
+    | 43 :: r => r
+    | _ => s
+  let low := body.map lowerAscii
+  let v : Option Float :=
+    if low == [110, 97, 110] then some (Float.ofBits 0x7FF8000000000000)
+    else if low == [105, 110, 102] || low == [105, 110, 102, 105, 110, 105, 116, 121] then
+      some (Float.ofBits 0x7FF0000000000000)
+    else parseDec body
+  v.map (fun x => if neg then -x else x)
+
 def digitsOf (n : Nat) : Str := (Nat.toDigits 10 n).map Char.toNat
 
 def intStr (n : Int) : Str := if n < 0 then 45 :: digitsOf n.natAbs else digitsOf n.natAbs
@@ -62,6 +99,7 @@ def fcv : Cv Float :=
       | .num x => some x
       | .int n => some (Float.ofInt n)
       | .bool b => some (if b then 1.0 else 0.0)
+      | .str t => pyFloatStr t
       | _ => none
     pyInt := fun
       | .int n => some n
